@@ -225,6 +225,18 @@ def primitives(interp):
         return a is b
     ns["is_same"] = is_same
 
+    # ---- ghost file system (C19); executable twin: temporary directory
+    from . import fs_model
+    ns["ghost_file"] = _b("ghost_file")(fs_model.ghost_file)
+    ns["ghost_remove"] = _b("ghost_remove")(fs_model.ghost_remove)
+    ns["file_text"] = _b("file_text")(fs_model.file_text)
+    ns["Text"] = TypeDesc("text", None)
+
+    @_b("TextLen")
+    def text_len(interp, maxlen=None):
+        return TypeDesc("text", maxlen)
+    ns["TextLen"] = text_len
+
     # ---- type descriptors for harness parameters
     ns["Int"] = TypeDesc("int", None, None)
     ns["Bool"] = TypeDesc("bool")
